@@ -9,7 +9,7 @@ to the reverse target).
 
 Generator: mode (regular, transparent, socks5, upstream:http, upstream:https, reverse:http, reverse:https) x
 upstream_auth (unset, plain, with extra colons, non-ASCII, empty password) x a sequence of client actions:
-absolute-form http:// and https:// requests, CONNECT to port 80/443 followed by plain or TLS (real ssl client)
+absolute-form http:// and https:// requests (also to the very same explicit host:port under both schemes), CONNECT to port 80/443 followed by plain or TLS (real ssl client)
 inner requests, origin-form requests for reverse/transparent/socks5 (plain or TLS client), each request optionally
 carrying the client's own Authorization / Proxy-Authorization headers; the `mode` option lists the client's mode alone
 or together with a second mode in either order.  One case in five is a client replay: a flow recorded live in some mode
@@ -86,8 +86,12 @@ def _decode(b: bytes):
     actions = []
     n = 0
     if mode in ("regular",) or mode.startswith("upstream"):
-        for _ in range(r.byte() % 3):
-            actions.append({"kind": "abs", "scheme": r.pick(["http", "https", "http"]), "req": req(n)})
+        # absolute-form requests, http:// and https:// mixed on one connection; with an explicit port the SAME
+        # host:port is addressed under both schemes (connection reuse must not cross the scheme boundary)
+        abs_port = r.pick([None, 8443, 8080, 443, 8443, None])
+        for _ in range(r.byte() % 4):
+            actions.append({"kind": "abs", "scheme": r.pick(["http", "https", "http", "https"]), "req": req(n),
+                            "port": abs_port if r.byte() % 5 else None})
             n += 1
         if r.byte() % 4 or not actions:
             # plain HTTP inside a client tunnel in upstream mode is the recorded finding C24-...-plain-tunnel:
@@ -153,9 +157,11 @@ def _origin_form(rq, with_own=True):
     return b"\r\n".join(lines) + b"\r\n\r\n" + body
 
 
-def _abs_form(rq, scheme):
+def _abs_form(rq, scheme, port=None):
     o = _origin_form(rq)
-    return o.replace(b" /r", b" " + scheme.encode() + b"://" + ORIGIN.encode() + b"/r", 1)
+    auth = ORIGIN.encode() + (b":%d" % port if port else b"")
+    o = o.replace(b"Host: " + ORIGIN.encode(), b"Host: " + auth, 1)
+    return o.replace(b" /r", b" " + scheme.encode() + b"://" + auth + b"/r", 1)
 
 
 def check_case(case, ctx):
@@ -221,7 +227,7 @@ def check_case(case, ctx):
             if not d.trace and not d.queue:
                 d.start()
             base = len(d.out(client))
-            d.recv(client, _abs_form(act["req"], act["scheme"]))
+            d.recv(client, _abs_form(act["req"], act["scheme"], act.get("port")))
             out = d.out(client)[base:]
             seen_plain_client += out
             wanted += 1
